@@ -3,16 +3,17 @@
    paths to nodes and a working directory, no child lists, no separate data index. Memfs/Refine.v proves that the
    line-by-line mirror of Memfs (three redundant indexes; held equal to the real Memfs state-for-state by the
    correspondence check) REFINES it for the single-target calls mkfile, mkdir_p / mkdir_m, write_all, append_all, reads,
-   remove, symlink and set_cwd and for the queries: from every state reachable by ANY history of calls (reachable states are well formed
+   remove, remove_all, symlink and set_cwd and for the queries: from every state reachable by ANY history of calls (reachable states are well formed
    and kind-sound: C03 + Memfs/Kinds.v, both proved for every call) each of these calls returns exactly the reference
    call's value or error kind and leaves exactly the reference call's tree. move_p is specified exactly and proved in
-   Memfs/WfMove.v (C09). PARTIAL: remove_all, copy, chmod and chown are compared with the real code state-for-state
+   Memfs/WfMove.v (C09). remove_all (Memfs/RemoveAll.v) always
+   succeeds off the root, with exactly the subtree gone. PARTIAL: copy, chmod and chown are compared with the real code state-for-state
    and judged on pre/post snapshots, and proved safe (no panic, well formed, kind-sound), but their reference-level
    specification is not yet a theorem. *)
 From stdpp Require Import gmap.
 From Coq Require Import NArith.
 From RV Require Import Base.Str Path.Helpers Path.Expand Memfs.State Memfs.Ops Memfs.Step Memfs.Wf Memfs.WfMore Memfs.WfMove
-  Memfs.ContentFacts Memfs.MoveFacts Memfs.Spec Memfs.Refine Memfs.Kinds Macros.Asserts.
+  Memfs.ContentFacts Memfs.MoveFacts Memfs.Spec Memfs.Refine Memfs.Kinds Memfs.RemoveAll Memfs.RefineMore Macros.Asserts.
 
 Theorem C01_step_no_panic : forall env m o, step env m o <> Panic.
 Proof. exact step_no_panic. Qed.
@@ -54,6 +55,20 @@ Theorem C01_remove_refines : forall env m s p, WF m -> kinds_ok m -> resolve env
   let '(m', r) := remove_op env m s in abs m' = (spec_remove (abs m) p).1 /\ r = (spec_remove (abs m) p).2.
 Proof. exact remove_refines. Qed.
 Print Assumptions C01_remove_refines.
+
+(* remove_all on anything but the root: always succeeds, and what is left is the reference tree without the subtree *)
+Theorem C01_remove_all_refines : forall env m s p, WF m -> resolve env m s = inl p -> p <> [] ->
+  exists m', remove_all_op env m s = Done (m', inl tt) /\ abs m' = (spec_remove_all (abs m) p).1.
+Proof. exact remove_all_refines. Qed.
+Print Assumptions C01_remove_all_refines.
+
+(* the same at the level of the three indexes: entries and data under p are gone, the parent no longer lists p, everything
+   else (cwd and root included) is untouched; a missing path changes nothing *)
+Theorem C01_remove_all_exact : forall env m s p, WF m -> resolve env m s = inl p -> p <> [] ->
+  exists m', remove_all_op env m s = Done (m', inl tt) /\ WF m' /\
+        (m_ents m !! p = None -> m' = m) /\ (is_Some (m_ents m !! p) -> removed m p m').
+Proof. exact remove_all_op_spec. Qed.
+Print Assumptions C01_remove_all_exact.
 
 Theorem C01_set_cwd_refines : forall env m s p, WF m -> kinds_ok m -> resolve env m s = inl p ->
   let '(m', r) := set_cwd_op env m s in abs m' = (spec_set_cwd (abs m) p).1 /\ r = (spec_set_cwd (abs m) p).2.
